@@ -115,10 +115,10 @@ var props = []*prop{
 	},
 	{
 		ID: "C19", Binary: "simcore", Quick: 6000, Thorough: 120000, RunWall: 60 * time.Second,
-		Variants: []variant{{Scenario: "c19", Weight: 1}},
-		Real:     []string{"tars/util/gpool (instrumented from the working tree)"},
+		Variants: []variant{{Scenario: "c19", Weight: 4}, {Scenario: "c19s", Weight: 1}},
+		Real:     []string{"tars/util/gpool (instrumented from the working tree)", "every fifth run: tars/transport TarsServer + tcpHandler handing requests to the pool (MaxInvoke 1-4, queue capacity 1-1000)"},
 		Stub:     commonStub,
-		Rule:     "one case = one simulated run: tape-drawn pool size 1-4, queue capacity 0-4, 1-3 submitters, 1-12 jobs with drawn durations, release none/idle/busy, under a tape-drawn schedule; distinct = distinct (event-log hash, context-switch trace hash); non-trivial = at least one preemption, stall or fired fault",
+		Rule:     "one case = one simulated run: tape-drawn pool size 1-4, queue capacity 0-4, 1-3 submitters, 1-12 jobs with drawn durations, release none/idle/busy, under a tape-drawn schedule; every fifth run instead drives the pool through a real TarsServer (MaxInvoke 1-4, small queue, 1-3 raw clients sending bursts of requests with drawn handler durations) and checks the bound and exactly-once on the invocations; distinct = distinct (event-log hash, context-switch trace hash); non-trivial = at least one preemption, stall or fired fault",
 	},
 	{
 		ID: "C20", Binary: "simcore", Quick: 5000, Thorough: 100000, RunWall: 60 * time.Second,
